@@ -9,7 +9,8 @@ LEVEL = "model_checking"
 RULE = ("records = Grid(ds, face_connections=table) for all 625 tables over 2 faces x 1 axis, every single and double "
         "edit (retarget face incl. out of range, retarget axis incl. unknown, flip reverse, delete, insert) of "
         "consistent 2-face x 2-axis and 3-face tables, consistent renamings of an axis / a face to one the grid lacks, random consistent tables up to 6 faces with self links, tables "
-        "with two face dimensions or a face dimension missing from the dataset; non-trivial = distinct tables")
+        "with two face dimensions or a face dimension missing from the dataset; non-trivial = distinct tables"
+        ' Also: consistent renamings of an axis / a face to one the grid lacks (incl. negative aliases), a face dimension without coordinate variable, a face key naming a coordinate or data variable.')
 
 AXES = ["a1", "a2"]
 
